@@ -5,3 +5,19 @@ pub fn verif_vec_from_elem(e: u8, n: usize) -> (r: Vec<u8>)
     requires n <= ALLOC_LIMIT   // O-ALLOC: no allocation proportional to a merely declared length
     ensures r@.len() == n
 { vec![e; n] }
+
+#[verifier::external_body]
+pub fn verif_vec_with_capacity<T>(n: usize) -> (r: Vec<T>)
+    requires n <= ALLOC_LIMIT
+    ensures r@.len() == 0
+{ Vec::with_capacity(n) }
+#[verifier::external_body]
+pub fn verif_vec_resize(v: &mut Vec<u8>, n: usize, x: u8)
+    requires n <= ALLOC_LIMIT
+    ensures final(v)@.len() == n, forall|i: int| 0 <= i < old(v)@.len() && i < n ==> final(v)@[i] == old(v)@[i]
+{ v.resize(n, x) }
+#[verifier::external_body]
+pub fn verif_vec_reserve<T>(v: &mut Vec<T>, n: usize)
+    requires n <= ALLOC_LIMIT
+    ensures final(v)@ == old(v)@
+{ v.reserve(n) }
